@@ -38,6 +38,9 @@ def reads(e: ast.AST) -> Set[str]:
 META_ATTRS = {"size", "shape", "dim", "ndim", "ndimension", "numel", "dtype", "device", "batch_shape", "matrix_shape"}
 
 
+LIKE_FACTORIES = {"zeros_like", "ones_like", "empty_like"}
+
+
 def value_reads(e: ast.AST) -> Set[str]:
     """Like reads(), but a name reached only through a metadata access (x.size(-1), x.shape, x.dtype ...) is not read
     for its VALUE."""
@@ -46,6 +49,12 @@ def value_reads(e: ast.AST) -> Set[str]:
     while stack:
         x = stack.pop()
         if isinstance(x, ast.Attribute) and x.attr in META_ATTRS:
+            continue
+        if isinstance(x, ast.Call) and isinstance(x.func, ast.Attribute) and x.func.attr in LIKE_FACTORIES \
+                and isinstance(x.func.value, ast.Name) and x.func.value.id == "torch" and x.args:
+            # torch.zeros_like(t): only the shape / dtype / device of t are read
+            stack.extend(x.args[1:])
+            stack.extend(k.value for k in x.keywords)
             continue
         if isinstance(x, ast.Name):
             out.add(x.id)
